@@ -137,6 +137,18 @@ def gen_jobs(rng, tier):
         add("postgresql", SCHEMA_PG + st + ";\n", "-- name: Q :exec\nSELECT 1;\n", tag="schema:pg")
     for st in MY_STATEMENTS:
         add("mysql", SCHEMA_MY + st.replace("?", "1") + ";\n", "-- name: Q :exec\nSELECT 1;\n", tag="schema:mysql")
+    # DDL histories (valid and invalid, with IF [NOT] EXISTS and unknown schemas) as schema files
+    import c08
+    for st in ["DROP TABLE IF EXISTS legacy.venues", "DROP TYPE IF EXISTS legacy.kind", "DROP SCHEMA IF EXISTS legacy", "ALTER TABLE IF EXISTS legacy.t ADD COLUMN a int",
+               "COMMENT ON TABLE legacy.t IS 'x'", "ALTER TYPE legacy.e ADD VALUE 'x'", "ALTER TABLE legacy.t RENAME TO u2", "ALTER TABLE t SET SCHEMA legacy",
+               "CREATE TABLE legacy.z (a int)", "CREATE TYPE legacy.e AS ENUM ('a')", "DROP TABLE IF EXISTS nosuch", "DROP TABLE nosuch, t", "ALTER TABLE t DROP COLUMN IF EXISTS nosuch",
+               "COMMENT ON COLUMN t.nosuch IS 'x'", "COMMENT ON COLUMN a.b.c.d.e IS 'x'", "ALTER TABLE t RENAME COLUMN nosuch TO x"]:
+        add("postgresql", SCHEMA_PG + st + ";\n", "-- name: Q :exec\nSELECT 1;\n", tag="schema:ddl")
+    for _ in range(150 if tier == "quick" else 5000):
+        hist = c08.gen_history(rng, rng.choice([3, 8, 15]))
+        if rng.random() < 0.5:
+            rng.shuffle(hist)        # out of order: mostly invalid
+        add("postgresql", "\n".join(sq for sq, _ in hist) + "\n", "-- name: Q :exec\nSELECT 1;\n", tag="schema:history")
     # configuration space
     for eng in ("sqlite", "", "postgres", "MYSQL", "_lemon", 7):
         add("postgresql", SCHEMA_PG, "-- name: Q :exec\nSELECT 1;\n", cfg_extra=lambda c, p, e=eng: p.update(engine=e), tag="config:engine")
